@@ -412,8 +412,8 @@ SUBCHECKS = [
     Sub('geo_roundtrip', gen_geo, ev_geo, chunk=16, floor=1000, envs=24),
     Sub('grid_lattice', gen_grid, ev_grid, chunk=8, floor=1000, envs=24),
     Sub('standalone', gen_sa, ev_sa, chunk=8, floor=500, envs=1),
-    Sub('threads', _tg, _te, chunk=1, floor=3, poison=False, fresh=True, timeout=3600),
-    Sub('many_objects', *_mo.make('C02', 'convert'), chunk=1, floor=3, poison=False, fresh=True, timeout=3600), Sub('callforms', *_cf.make('C02', 'convert'), chunk=1, floor=1, guard=True),
+    Sub('threads', _tg, _te, chunk=1, floor=3, poison=False, fresh=True, timeout=7200),
+    Sub('many_objects', *_mo.make('C02', 'convert'), chunk=1, floor=3, poison=False, fresh=True, timeout=7200), Sub('callforms', *_cf.make('C02', 'convert'), chunk=1, floor=1, guard=True),
     Sub('interpreter', *_ip.make('C02', 'convert'), chunk=1, floor=5, poison=False),
 ]
 
